@@ -283,6 +283,67 @@ Theorem C14_generated_facts_present : GEN_DICTLIST_OK = true.
 Proof. reflexivity. Qed.
 Print Assumptions C14_generated_facts_present.
 
+(* ====================================================================================== *)
+(* Glue C14 <-> C04/C01 (theories/Glue/GlueFromDict.v).  from_dict is modelled twice: here
+   (Forest/DictList.v: JSON items read through a deserialisation step [dd], identities assigned by
+   [renum_f] afterwards) and in the mutation machine (Mut/Machine.v [op_from_dict] / [OTreeFromDict]:
+   a sequence of add_child calls on the tree state, with the handlers of fix D48; C04_from_dict
+   characterises its result).  [enc dd calc cs it p]: the decoded JSON item p says what the machine item
+   it says - same data object, same explicit data_id or none, no explicit node_id, calc_data_id answers
+   alike (a raising callback is class 8 in both), same children.  Then both models build the SAME
+   forest, identities included ([next] = allocator - 1), and refuse the SAME inputs with the same error
+   class; after a refusal the machine's trees are unchanged.  Plain trees (typed = false: the dict-list
+   model has no kinds). *)
+From NT Require Machine WF GlueFromDict.
+
+Theorem C14_agrees_with_mutation_model_node_from_dict : forall dd dcalc w ti p items obj t m,
+  WF.WFw w -> Machine.get_tree w ti = Some t -> Machine.typed t = false -> Machine.next w = S m ->
+  In p (ids (Machine.forest_of t)) ->
+  Forall2 (GlueFromDict.enc dd dcalc (Machine.calc t)) items (map parse obj) ->
+  match Machine.op_from_dict w ti p items, node_from_dict dd dcalc m (Machine.forest_of t) p obj with
+  | (Machine.Ok _, w'), inl f' => exists t', Machine.get_tree w' ti = Some t' /\ Machine.forest_of t' = f' /\
+                                             forall tj, tj <> ti -> Machine.get_tree w' tj = Machine.get_tree w tj
+  | (Machine.Err e, w'), inr ez => ez = Z.of_nat e /\ Machine.trees w' = Machine.trees w
+  | _, _ => False
+  end.
+Proof. exact GlueFromDict.glue_node_from_dict. Qed.
+Print Assumptions C14_agrees_with_mutation_model_node_from_dict.
+
+Theorem C14_agrees_with_mutation_model_tree_from_dict : forall dd w items obj m, WF.WFw w -> Machine.next w = S m ->
+  Forall2 (GlueFromDict.enc dd default_did None) items (map parse obj) ->
+  match Machine.op_tree_from_dict w items, tree_from_dict dd m obj with
+  | (Machine.Ok r, w'), inl f' => r = [length (Machine.trees w)] /\
+        exists t', Machine.get_tree w' (length (Machine.trees w)) = Some t' /\ Machine.forest_of t' = f' /\
+                   forall tj, (tj < length (Machine.trees w))%nat -> Machine.get_tree w' tj = Machine.get_tree w tj
+  | (Machine.Err e, w'), inr ez => ez = Z.of_nat e /\ Machine.trees w' = Machine.trees w
+  | _, _ => False
+  end.
+Proof. exact GlueFromDict.glue_tree_from_dict. Qed.
+Print Assumptions C14_agrees_with_mutation_model_tree_from_dict.
+
+(* non-vacuity: plain int data objects, "data": z, one explicit data_id, one duplicate sibling *)
+Definition c14g_raw (v : jv) : res info :=
+  match v with JInt z => inl (I z z z false [z] (DInt 0) None []) | _ => inr E_TYPE end.
+Definition c14g_dat (z : Z) : Machine.dat := Machine.D z z z false [z].
+Definition c14g_item (z : Z) (e : option jv) (kids : list jv) : jv :=
+  JDict (([100; 97; 116; 97], JInt z) :: (match e with Some v => [(k_data_id, v)] | None => [] end) ++ [(k_children, JList kids)]).
+Example C14_agrees_with_mutation_model_nonvacuous :
+  let obj := [c14g_item 5 None [c14g_item 6 (Some (JStr [120%Z])) []]; c14g_item 7 None []] in
+  let items := [Machine.DI (c14g_dat 5) None [Machine.DI (c14g_dat 6) (Some (DStr [120%Z])) []]; Machine.DI (c14g_dat 7) None []] in
+  let bad := [c14g_item 5 None []; c14g_item 5 None []] in
+  let bad_items := [Machine.DI (c14g_dat 5) None []; Machine.DI (c14g_dat 5) None []] in
+  Forall2 (GlueFromDict.enc (dd_raw c14g_raw) default_did None) items (map parse obj) /\
+  Forall2 (GlueFromDict.enc (dd_raw c14g_raw) default_did None) bad_items (map parse bad) /\
+  tree_from_dict (dd_raw c14g_raw) 0%nat obj =
+    inl (Machine.forest_of (nth 0%nat (Machine.trees (snd (Machine.op_tree_from_dict Machine.empty_world items))) (Machine.TS [] [] [] false None))) /\
+  tree_from_dict (dd_raw c14g_raw) 0%nat bad = inr E_UNIQUE /\
+  fst (Machine.op_tree_from_dict Machine.empty_world bad_items) = Machine.Err Machine.EUnique.
+Proof.
+  cbv zeta. split; [|split; [|split; [|split]]]; try (vm_compute; reflexivity).
+  - repeat (first [apply Forall2_nil | apply Forall2_cons | eapply GlueFromDict.enc_item; [vm_compute; reflexivity|repeat split|vm_compute; reflexivity|vm_compute; reflexivity|vm_compute; reflexivity|]]).
+  - repeat (first [apply Forall2_nil | apply Forall2_cons | eapply GlueFromDict.enc_item; [vm_compute; reflexivity|repeat split|vm_compute; reflexivity|vm_compute; reflexivity|vm_compute; reflexivity|]]).
+Qed.
+
 (* ==== PART MAPPER: common.call_mapper (model theories/Forest/MiscMapper.v, correspondence Cases/CaseMiscMapper.v,
    harness parts_misc.MAPPER).  A callback is a script [CB body ret]: mutations of the dict it is handed, then how it
    ends ([RNone] returns None, [RSame] returns the dict itself, [RVal v] another object of value v, [RRaise c]).
